@@ -10,7 +10,9 @@
    in any order and any number: open/close without start, repeated start/stop, start twice, append or stop when idle,
    close while running) interleaved with the rest of the process opening and closing descriptors of its own
    (OEnvOpen / OEnvClose); the create script [cs] and the write script [ws] give the operating system's answer to the
-   n-th open (succeed / open fails / the flock that follows fails) and to the n-th pwrite (any count, or an error), so
+   n-th open and the two calls file_create issues on the new descriptor (all succeed / open fails / the flock that
+   follows fails / the ftruncate that follows the flock fails, with any error number -- a create can fail at EACH of
+   its three system calls) and to the n-th pwrite (any count, or an error), so
    EVERY fault index, transient or persistent, and every short-write pattern is covered; [env_fds] is any set of
    descriptors already open in the process.  [life] = device open, the history, storage_close (stop + destroy).
    Induction over histories and over packets: no bound on any length.
@@ -59,7 +61,7 @@ Proof. exact failure_is_reported. Qed.
 Print Assumptions C16_reports.
 
 (* ---------------------------------------------------------------------------------------------------------------
-   C16_owned_fds.  Every flock, pwrite and close the device issues during its whole life targets a descriptor number
+   C16_owned_fds.  Every flock, ftruncate, pwrite and close the device issues during its whole life targets a descriptor number
    that the device holds at that moment: it has opened it (an EOpen event of the device's own) once more often than it
    has closed it.  In particular never -1, never a descriptor of the rest of the process (0, 1, 2, ...), never a number
    it has already closed and somebody else may have been given since. *)
@@ -102,7 +104,7 @@ Proof. exact write_error_path. Qed.
 Print Assumptions C16_write_error_path.
 
 (* ---------------------------------------------------------------------------------------------------------------
-   C16_errno_irrelevant.  A failing pwrite reports one of EIO, ENOSPC, EAGAIN, EINTR, EBADF ([WErr e]).  file_write
+   C16_errno_irrelevant.  A failing pwrite reports one of EIO, ENOSPC, EAGAIN, EINTR, EBADF, EINVAL ([WErr e]).  file_write
    (platform.c:66-86: `if (written < 0) CHECK_POSIX(errno);`) leaves its loop with return value 0 whatever the number
    is: under two write scripts that fail the same calls with different error numbers ([errno_variant], [os_ev]) it
    returns the same value, issues the same system calls and leaves the same files and descriptor table -- a failing
@@ -114,12 +116,28 @@ Theorem C16_errno_irrelevant_file_write :
 Proof. exact file_write_errno_irrelevant. Qed.
 Print Assumptions C16_errno_irrelevant_file_write.
 
+(* The same for the ftruncate of a create: a failing ftruncate reports one of the same error numbers
+   ([CFailTrunc e]).  file_create (platform.c:38-63: `if (ftruncate(fid, 0) < 0) { tmp = errno; close(fid);
+   CHECK_POSIX(tmp); }`) closes the descriptor and returns 0 whatever the number is: under two create scripts that fail
+   the same calls at the same of the three system calls with different error numbers ([cerrno_variant], [os_ev]) it
+   returns the same value, leaves the same number in file->fid, issues the same system calls and leaves the same files
+   and descriptor table -- there is no error number for which a create whose descriptor has been closed reports
+   success. *)
+Theorem C16_errno_irrelevant_file_create :
+  forall o o' p, os_ev o o' ->
+    snd (fst (file_create o p)) = snd (fst (file_create o' p)) /\
+    snd (file_create o p) = snd (file_create o' p) /\
+    os_ev (fst (fst (file_create o p))) (fst (fst (file_create o' p))).
+Proof. exact file_create_errno_irrelevant. Qed.
+Print Assumptions C16_errno_irrelevant_file_create.
+
 (* ... and therefore whole device lives: every kind, every history, every variant of the code and every fuel; the HAL
    status and device state after each call, the system-call log, the descriptor table, the files and the number of
-   failed platform calls are the same (and one life diverges iff the other does). *)
+   failed platform calls are the same (and one life diverges iff the other does) under any two create scripts and any
+   two write scripts that differ only in the error numbers their failing ftruncate / pwrite calls report. *)
 Theorem C16_errno_irrelevant :
-  forall fuel v k h env_fds cs ws ws', errno_variant ws ws' ->
-    match life fuel v k h (os_init env_fds cs ws), life fuel v k h (os_init env_fds cs ws') with
+  forall fuel v k h env_fds cs cs' ws ws', cerrno_variant cs cs' -> errno_variant ws ws' ->
+    match life fuel v k h (os_init env_fds cs ws), life fuel v k h (os_init env_fds cs' ws') with
     | Ret (rs, o1), Ret (rs', o1') =>
         rs = rs' /\ trace o1 = trace o1' /\ tbl o1 = tbl o1' /\ fs o1 = fs o1' /\ nfail o1 = nfail o1'
     | Diverges, Diverges => True
@@ -143,7 +161,7 @@ Definition h_tiff : list op :=
 Example tiff_persistent_failure :
   exists o', life FUEL fixed KTiff h_tiff (os0 (persistent_from 4)) =
                Ret ([(true, Ok, Armed); (true, Ok, Running); (true, Err, Armed); (true, Err, Armed); (true, Ok, Armed)], o') /\
-    trace o' = [EOpen "x.tif" (Some 3); EClose (Some 3) true; EOpen "x.tif" (Some 3); ELock 3 true;
+    trace o' = [EOpen "x.tif" (Some 3); EClose (Some 3) true; EOpen "x.tif" (Some 3); ELock 3 true; ETrunc 3 true;
                 EWrite (Some 3) 0 16 (Some 16); EWrite (Some 3) 0 336 (Some 336); EWrite (Some 3) 0 16 (Some 16);
                 EWrite (Some 3) 0 60 (Some 60); EWrite (Some 3) 0 336 None; EWrite (Some 3) 0 8 None;
                 EClose (Some 3) true] /\
@@ -165,7 +183,7 @@ Example raw_lives :
               trace o' = [EOpen "a.raw" (Some 3); EClose (Some 3) true]) /\
   (exists o', life FUEL fixed KRaw h_raw (os0 (persistent_from 0)) =
                 Ret ([(true, Ok, Armed); (true, Ok, Running); (true, Err, Armed); (true, Ok, Armed); (true, Ok, Armed)], o') /\
-              trace o' = [EOpen "a.raw" (Some 3); EClose (Some 3) true; EOpen "a.raw" (Some 3); ELock 3 true;
+              trace o' = [EOpen "a.raw" (Some 3); EClose (Some 3) true; EOpen "a.raw" (Some 3); ELock 3 true; ETrunc 3 true;
                           EWrite (Some 3) 0 3 None; EClose (Some 3) true; EEnvOpen 3] /\
               fds_of o' = [3; 0; 1; 2]).
 Proof. split; eexists; (split; [vm_compute; reflexivity|]); vm_compute; auto. Qed.
@@ -174,15 +192,15 @@ Proof. split; eexists; (split; [vm_compute; reflexivity|]); vm_compute; auto. Qe
 Definition h_sbs : list op := [OSet "d" 7; OStart; OAppend (pk 8 [(16, (60, 50))]); OStop].
 Example sbs_life :
   exists rs o', life FUEL fixed KSbs h_sbs (os0 (fun _ => WFull)) = Ret (rs, o') /\ disciplined rs = true /\
-    trace o' = [EOpen "d/metadata.json" (Some 3); ELock 3 true; EWrite (Some 3) 0 7 (Some 7); EClose (Some 3) true;
-                EOpen "d/data.tif" (Some 3); EClose (Some 3) true; EOpen "d/data.tif" (Some 3); ELock 3 true;
+    trace o' = [EOpen "d/metadata.json" (Some 3); ELock 3 true; ETrunc 3 true; EWrite (Some 3) 0 7 (Some 7); EClose (Some 3) true;
+                EOpen "d/data.tif" (Some 3); EClose (Some 3) true; EOpen "d/data.tif" (Some 3); ELock 3 true; ETrunc 3 true;
                 EWrite (Some 3) 0 16 (Some 16); EWrite (Some 3) 0 336 (Some 336); EWrite (Some 3) 0 16 (Some 16);
                 EWrite (Some 3) 0 60 (Some 60); EWrite (Some 3) 0 8 (Some 8); EClose (Some 3) true].
 Proof. eexists _, _. split; [vm_compute; reflexivity|]. vm_compute. auto. Qed.
 
 (* [held]: at the moment of the first pwrite of tiff_persistent_failure the device holds descriptor 3 *)
 Example held_example :
-  held 3 [EOpen "x.tif" (Some 3); EClose (Some 3) true; EOpen "x.tif" (Some 3); ELock 3 true].
+  held 3 [EOpen "x.tif" (Some 3); EClose (Some 3) true; EOpen "x.tif" (Some 3); ELock 3 true; ETrunc 3 true].
 Proof. vm_compute. reflexivity. Qed.
 
 (* [errno_variant]: the disk-full script of tiff_persistent_failure and the same faults reported as EAGAIN (the case a
@@ -206,6 +224,76 @@ Proof.
     split; [vm_compute; reflexivity|]. vm_compute. auto.
 Qed.
 
+(* a create that fails at its THIRD system call (open and flock succeeded, ftruncate fails): the descriptor is closed
+   at once, the start answers Err / AwaitingConfiguration, nothing is written to or closed again afterwards -- although
+   somebody else is given the same number 3 right after; the later append and stop are refused / do nothing.
+   raw, tiff (2nd open of the life = the create; the 1st is the writability probe of set) and tiff-json (the create of
+   metadata.json, and the create of data.tif = 3rd open) *)
+Definition trunc_fails_at (n : nat) (e : errno) (k : nat) : cresp := if k =? n then CFailTrunc e else COk.
+Definition os1 (cs : nat -> cresp) : os := os_init [0; 1; 2] cs (fun _ => WFull).
+Definition h_raw2 : list op := [OSet "a.raw" 0; OStart; OEnvOpen; OAppend (pk 3 []); OStop].
+Example raw_ftruncate_fails :
+  exists o', life FUEL fixed KRaw h_raw2 (os1 (trunc_fails_at 1 EINVAL)) =
+               Ret ([(true, Ok, Armed); (true, Err, AwaitingConfiguration); (true, Ok, AwaitingConfiguration);
+                     (true, Err, AwaitingConfiguration); (true, Ok, AwaitingConfiguration)], o') /\
+    trace o' = [EOpen "a.raw" (Some 3); EClose (Some 3) true;
+                EOpen "a.raw" (Some 3); ELock 3 true; ETrunc 3 false; EClose (Some 3) true; EEnvOpen 3] /\
+    nfail o' = 1 /\ ledger [] (trace o') = Some [] /\ fds_of o' = [3; 0; 1; 2].
+Proof. eexists. split; [vm_compute; reflexivity|]. vm_compute. auto. Qed.
+
+Example tiff_ftruncate_fails :
+  exists o', life FUEL fixed KTiff [OSet "x.tif" 0; OStart; OEnvOpen; OAppend (pk 8 [(16, (60, 50))]); OStop]
+                  (os1 (trunc_fails_at 1 EIO)) =
+               Ret ([(true, Ok, Armed); (true, Err, AwaitingConfiguration); (true, Ok, AwaitingConfiguration);
+                     (true, Err, AwaitingConfiguration); (true, Ok, AwaitingConfiguration)], o') /\
+    trace o' = [EOpen "x.tif" (Some 3); EClose (Some 3) true;
+                EOpen "x.tif" (Some 3); ELock 3 true; ETrunc 3 false; EClose (Some 3) true; EEnvOpen 3] /\
+    nfail o' = 1 /\ ledger [] (trace o') = Some [].
+Proof. eexists. split; [vm_compute; reflexivity|]. vm_compute. auto. Qed.
+
+Example sbs_ftruncate_fails :
+  (exists rs o', life FUEL fixed KSbs h_sbs (os1 (trunc_fails_at 0 ENOSPC)) = Ret (rs, o') /\
+     nth 1 rs (true, Ok, Running) = (true, Err, AwaitingConfiguration) /\
+     trace o' = [EOpen "d/metadata.json" (Some 3); ELock 3 true; ETrunc 3 false; EClose (Some 3) true] /\
+     ledger [] (trace o') = Some []) /\
+  (exists rs o', life FUEL fixed KSbs h_sbs (os1 (trunc_fails_at 2 EINVAL)) = Ret (rs, o') /\
+     nth 1 rs (true, Ok, Running) = (true, Err, AwaitingConfiguration) /\
+     trace o' = [EOpen "d/metadata.json" (Some 3); ELock 3 true; ETrunc 3 true; EWrite (Some 3) 0 7 (Some 7);
+                 EClose (Some 3) true;
+                 EOpen "d/data.tif" (Some 3); EClose (Some 3) true;
+                 EOpen "d/data.tif" (Some 3); ELock 3 true; ETrunc 3 false; EClose (Some 3) true] /\
+     nfail o' = 1 /\ ledger [] (trace o') = Some []).
+Proof. split; eexists _, _; (split; [vm_compute; reflexivity|]); vm_compute; auto. Qed.
+
+(* the hypotheses of C16_reports at a reachable state: the start inside which the ftruncate of the create fails *)
+Example reports_reachable_ftruncate :
+  exists rs d o d1 o1,
+    run FUEL fixed [OSet "a.raw" 0] (dev_init KRaw) (os1 (trunc_fails_at 1 EINVAL)) = Ret (rs, d, o) /\
+    get_state d = Armed /\
+    step FUEL fixed OStart d o = Ret (d1, o1, Err) /\ nfail o = 0 /\ nfail o1 = 1 /\ get_state d1 = AwaitingConfiguration.
+Proof. eexists _, _, _, _, _. split; [vm_compute; reflexivity|]. split; [reflexivity|]. split; [vm_compute; reflexivity|]. vm_compute. auto. Qed.
+
+(* [cerrno_variant]: the same create fault reported as EINVAL (what ftruncate answers on a pipe or a device node), as EIO
+   and as EINTR; the three lives are identical -- in particular the start answers Err for EINVAL too *)
+Example cerrno_variant_example :
+  cerrno_variant (trunc_fails_at 1 EINVAL) (trunc_fails_at 1 EIO) /\
+  cerrno_variant (trunc_fails_at 1 EINVAL) (trunc_fails_at 1 EINTR) /\
+  ~ cerrno_variant (trunc_fails_at 1 EINVAL) (fun _ => COk) /\
+  (exists rs o1 o2 o3,
+     life FUEL fixed KRaw h_raw2 (os1 (trunc_fails_at 1 EINVAL)) = Ret (rs, o1) /\
+     life FUEL fixed KRaw h_raw2 (os1 (trunc_fails_at 1 EIO)) = Ret (rs, o2) /\
+     life FUEL fixed KRaw h_raw2 (os1 (trunc_fails_at 1 EINTR)) = Ret (rs, o3) /\
+     trace o1 = trace o2 /\ trace o2 = trace o3 /\ nfail o1 = 1 /\
+     nth 1 rs (true, Ok, Running) = (true, Err, AwaitingConfiguration)).
+Proof.
+  split; [|split; [|split]].
+  - intros k. unfold trunc_fails_at. destruct (k =? 1); exact I.
+  - intros k. unfold trunc_fails_at. destruct (k =? 1); exact I.
+  - intros H. exact (H 1).
+  - eexists _, _, _, _. split; [vm_compute; reflexivity|]. split; [vm_compute; reflexivity|].
+    split; [vm_compute; reflexivity|]. vm_compute. auto.
+Qed.
+
 (* ===============================================================================================================
    Sensitivity: with a repair switched off the model produces exactly the behaviour the theorems exclude.  These are
    the defects confirmed on the unrepaired code; corpus/C16/*.json replays them on the real code. *)
@@ -224,7 +312,7 @@ Proof. eexists _, _. split; [vm_compute; reflexivity|]. vm_compute. auto. Qed.
 (* ... and, after a failed append, the stale number 3 that another part of the process has been given in between *)
 Example D4_unrepaired_closes_foreign :
   exists rs o', life FUEL without_d4 KRaw h_raw (os0 (persistent_from 0)) = Ret (rs, o') /\
-    trace o' = [EOpen "a.raw" (Some 3); EClose (Some 3) true; EOpen "a.raw" (Some 3); ELock 3 true;
+    trace o' = [EOpen "a.raw" (Some 3); EClose (Some 3) true; EOpen "a.raw" (Some 3); ELock 3 true; ETrunc 3 true;
                 EWrite (Some 3) 0 3 None; EClose (Some 3) true; EEnvOpen 3; EClose (Some 3) true] /\
     ledger [] (trace o') = None /\ fds_of o' = [0; 1; 2].
 Proof. eexists _, _. split; [vm_compute; reflexivity|]. vm_compute. auto. Qed.
